@@ -135,6 +135,16 @@ class Ctx:
         self.errs.append((cname, en, iserr))
         return iserr
 
+    def call_void(self, cname, args):
+        """call a function that returns no Error struct (awkward_regularize_rangeslice)"""
+        self.ncall += 1
+        out = self.eng.call(cname, list(args), self.mem, self.pc)
+        if out is None:
+            raise Unsupported('no feasible path through ' + cname)
+        self.mem = out.mem
+        self.errs.append((cname, None, z3.BoolVal(False)))
+        return out.ret
+
     def err_field(self, k, which=-1):
         """identity (k=16) / attempt (k=24) of call `which`"""
         en = self.errs[which][1]
